@@ -5,6 +5,7 @@ package c06
 
 import (
 	"bytes"
+	"crypto"
 	stdtls "crypto/tls"
 	stdx509 "crypto/x509"
 	"fmt"
@@ -13,6 +14,7 @@ import (
 	"testing"
 
 	"github.com/tjfoc/gmsm/gmtls"
+	"github.com/tjfoc/gmsm/sm2"
 	"pgregory.net/rapid"
 
 	"verifharness/gen"
@@ -28,7 +30,7 @@ var R = hx.NewRecorder("C06", "cases = (server mode gm|auto|tls, client kind gm|
 
 func TestMain(m *testing.M) {
 	R.Require("autoswitch_history", "clientcert:ec", "clientcert:via_intermediate", "ekm_long_input", "reconnect", "reconnect_resumed", "interop_suite:c030", "interop_suite:9d", "interop_suite:c02f", "interop_suite:c014", "interop_suite:cca8", "interop_suite:2f", "ref_peer", "readbuf<record", "mode:gm", "mode:auto", "mode:tls", "suite:e013", "suite:e053", "tls10", "tls11", "tls12", "auth:0", "auth:1", "auth:2", "auth:3", "auth:4",
-		"clientcert:untrusted", "clientcert:callback_untrusted", "certsource:callbacks", "stdlib_client", "stdlib_server", "passive_decoder", "payload>16KiB", "fragment==1", "must_fail", "must_succeed")
+		"clientcert:untrusted", "clientcert:callback_untrusted", "certsource:callbacks", "stdlib_client", "stdlib_server", "passive_decoder", "payload>16KiB", "fragment==1", "must_fail", "must_succeed", "gm_short_signatures")
 	hx.Main(m, R)
 }
 
@@ -38,6 +40,7 @@ type hsCase struct {
 	Peer         string // gmtls | stdclient | stdserver
 	CertSource   string // static | callbacks | constructor
 	Cloned       int    // bit 0: the client works on a Clone() of its configuration, bit 1: the server does
+	ShortSigs    bool   // the SM2 signing keys sit behind a crypto.Signer whose signatures all have a short r or s
 	StdCert      string // rsa | ec
 	SrvCert      string // good | untrusted | expired | future | wrongname | enc_expired
 	SrvSuites    []uint16
@@ -115,6 +118,7 @@ func drawCase(t *rapid.T) hsCase {
 	if gen.OneIn(t, "cloned", 3) {
 		c.Cloned = rapid.IntRange(1, 3).Draw(t, "clonedwho")
 	}
+	c.ShortSigs = gen.OneIn(t, "shortsigs", 8)
 	c.SrvCert = "good"
 	if gen.OneIn(t, "badsrvcert", 7) {
 		c.SrvCert = rapid.SampledFrom([]string{"untrusted", "expired", "future", "wrongname", "enc_expired"}).Draw(t, "srvcert")
@@ -234,17 +238,21 @@ func build(c hsCase, id string) (ccfg, scfg *gmtls.Config) {
 	case "enc_expired":
 		enc = p.SrvEncExpired
 	}
+	signTLS, encTLS := sign.TLS, enc.TLS
+	if c.ShortSigs {
+		signTLS.PrivateKey = shortSigner{signTLS.PrivateKey.(crypto.Signer)}
+	}
 	switch c.ServerMode {
 	case "gm":
 		scfg = tlsx.GMServer(p, "s"+id)
-		scfg.Certificates = []gmtls.Certificate{sign.TLS, enc.TLS}
+		scfg.Certificates = []gmtls.Certificate{signTLS, encTLS}
 		if c.CertSource == "static_declining_callback" {
 			scfg.GetCertificate = func(*gmtls.ClientHelloInfo) (*gmtls.Certificate, error) { return nil, nil }
 		}
 	case "auto":
 		if c.CertSource == "constructor" {
 			var err error
-			scfg, err = gmtls.NewBasicAutoSwitchConfig(&sign.TLS, &enc.TLS, &std.TLS)
+			scfg, err = gmtls.NewBasicAutoSwitchConfig(&signTLS, &encTLS, &std.TLS)
 			if err != nil {
 				panic(err)
 			}
@@ -255,12 +263,12 @@ func build(c hsCase, id string) (ccfg, scfg *gmtls.Config) {
 			scfg.GetCertificate = func(info *gmtls.ClientHelloInfo) (*gmtls.Certificate, error) {
 				for _, v := range info.SupportedVersions {
 					if v == tlsx.VersionGMSSL {
-						return &sign.TLS, nil
+						return &signTLS, nil
 					}
 				}
 				return &std.TLS, nil
 			}
-			scfg.GetKECertificate = func(*gmtls.ClientHelloInfo) (*gmtls.Certificate, error) { return &enc.TLS, nil }
+			scfg.GetKECertificate = func(*gmtls.ClientHelloInfo) (*gmtls.Certificate, error) { return &encTLS, nil }
 		}
 		scfg.Rand, scfg.Time = tlsx.NewDRBG("s"+id), tlsx.FixedTime
 	default:
@@ -313,6 +321,11 @@ func build(c hsCase, id string) (ccfg, scfg *gmtls.Config) {
 		cc = p.ECClient // ECDSA client certificate: the CertificateVerify hash differs from RSA below TLS 1.2
 	}
 	if cc != nil {
+		if _, isSM2 := cc.TLS.PrivateKey.(*sm2.PrivateKey); isSM2 && c.ShortSigs {
+			cp := *cc
+			cp.TLS.PrivateKey = shortSigner{cc.TLS.PrivateKey.(crypto.Signer)}
+			cc = &cp
+		}
 		if c.ClientCert == "callback" || c.ClientCert == "callback_untrusted" || strings.HasSuffix(c.ClientCert, "_callback") {
 			id := cc
 			ccfg.GetClientCertificate = func(*gmtls.CertificateRequestInfo) (*gmtls.Certificate, error) { return &id.TLS, nil }
@@ -329,6 +342,19 @@ func build(c hsCase, id string) (ccfg, scfg *gmtls.Config) {
 		scfg = scfg.Clone()
 	}
 	return
+}
+
+// shortSigner: a key holder (an HSM, a remote signer) behind crypto.Signer whose SM2 signatures all happen to have an r
+// or s of fewer than 32 bytes - about one genuine signature in 128 has; their DER encoding is shorter than usual.
+type shortSigner struct{ crypto.Signer }
+
+func (s shortSigner) Sign(rnd io.Reader, digest []byte, opts crypto.SignerOpts) ([]byte, error) {
+	for i := 0; ; i++ {
+		sig, err := s.Signer.Sign(rnd, digest, opts)
+		if err != nil || len(sig) <= 69 || i > 20000 {
+			return sig, err
+		}
+	}
 }
 
 // ---- policy model
@@ -736,6 +762,9 @@ func TestC06_Handshakes(t *testing.T) {
 		}
 		csend, ssend := payload(c.CSend, 'c'), payload(c.SSend, 's')
 		cl := []string{"mode:" + c.ServerMode, "client:" + c.ClientKind, fmt.Sprintf("auth:%d", c.ClientAuth), "clientcert:" + c.ClientCert, "certsource:" + c.CertSource, "srvcert:" + c.SrvCert, fmt.Sprintf("cloned_configs:%d", c.Cloned)}
+		if c.ShortSigs && c.ServerMode != "tls" && c.ClientKind == "gm" {
+			cl = append(cl, "gm_short_signatures")
+		}
 		if c.CSend > 16384 || c.SSend > 16384 {
 			cl = append(cl, "payload>16KiB")
 		}
